@@ -30,10 +30,12 @@ TRUSTED = ["harness/c05.py, harness/fieldio.py + driver JSON glue",
 ASSUMPTIONS = ["exact-regime inputs (dyadic corners, cells 2^-k, small-integer polynomial coefficients): every binary64 operation on the code path is exact, so equality is demanded",
                "component labels are not names of Field attributes (the hasattr test of the vdims setter is not modelled)",
                "operands of + - << inside the operators live on the same mesh object (mesh equality is modelled as structural equality)"]
-UNPROVED = ["ops_commute_rot90: commutation with Field.rotate90 is checked on the real code by the oracle only (every axis pair, k=1..3); "
-            "the stencil-level reversal lemmas are proved, the full rotate90 model belongs to C12",
-            "vector Laplacian of a field whose mapping is not positional loses the pairing (candidate finding D21) and rotate90 keeps bc in place (candidate finding D22): "
-            "both make the full-strength commutation claim false of the code"]
+UNPROVED = ["ops_commute_rot90 (DESIGN.md): commutation of the four operators with Field.rotate90 is checked on the real code by the oracle only "
+            "(every ordered axis pair, k=1..3, with and without masks); proved are the stencil reversal lemmas d1_reverse/d2_reverse; a rotate90 model belongs to C12",
+            "div_perm/curl_perm (DESIGN.md): invariance under permuting the storage order together with the mapping is oracle-only; div_eq/curl_eq state the "
+            "pairing per stored component through the mapping and div_relabel proves independence of label spelling",
+            "full-strength rotation claim is FALSE of the code in two input classes: candidate finding D21 (vector Laplacian under a non-positional mapping; "
+            "behaviour stated by theorem laplace_vector_meta) and candidate finding D22 (Mesh.rotate90 keeps bc in place)"]
 BUDGET = {"quick": 90, "thorough": 900}
 
 DIMPOOL = ["x", "y", "z", "a", "b", "c", "u", "v", "w", "t"]
